@@ -54,4 +54,37 @@ def viewBoxRectToTransform {α : Type} [Flt α] (align : Align) (slice : Bool) (
     ScaleTranslate α :=
   viewBoxToTransform align slice rect.x rect.y rect.width rect.height W H
 
+/-! ### the image route (crates/usvg/src/parser/image.rs `convert_inner`, `fit_view_box`)
+
+An `image` element is not mapped with `ViewBox::to_transform`: the fitted size is computed first
+(`fit_view_box`), placed with `aligned_pos` inside the element rect, stored as a `NonZeroRect`
+(left/top/right/bottom) and turned into a scale-and-translate from its width and height. -/
+
+/-- `Size::from_wh`: both sides positive (and finite) -/
+def validSize {α : Type} [Flt α] (w h : α) : Bool :=
+  Flt.lt (Flt.ofNat 0) w && Flt.lt (Flt.ofNat 0) h
+
+/-- `fit_view_box(size = (aw, ah), rect.size() = (rw, rh), aspect)` -/
+def fitViewBox {α : Type} [Flt α] (align : Align) (slice : Bool) (aw ah rw rh : α) : Option (α × α) :=
+  if align = Align.none then some (rw, rh)
+  else
+    let w' := Flt.div (Flt.mul rh aw) ah
+    let withH := if slice then Flt.le w' rw else Flt.le rw w'
+    if !withH then (if validSize w' rh then some (w', rh) else none)
+    else
+      let h' := Flt.div (Flt.mul rw ah) aw
+      if validSize rw h' then some (rw, h') else none
+
+/-- the image group's transform `image_ts`, for the element rect `rect` and the image size `aw x ah` -/
+def imageTransform {α : Type} [Flt α] (align : Align) (slice : Bool) (rect : LTRB α) (aw ah : α) :
+    Option (ScaleTranslate α) :=
+  match fitViewBox align slice aw ah rect.width rect.height with
+  | none => none
+  | some (fw, fh) =>
+    let p := alignedPos align rect.x rect.y (Flt.sub rect.width fw) (Flt.sub rect.height fh)
+    let vb : LTRB α := LTRB.fromXywh p.1 p.2 fw fh
+    if vb.isNonZero then
+      some { sx := Flt.div vb.width aw, sy := Flt.div vb.height ah, tx := vb.x, ty := vb.y }
+    else none
+
 end Resvg.Geom
